@@ -39,6 +39,12 @@ def sig_c01(item):
     return observe.sig(common.run_spec(c01.to_spec(item)))
 
 
+def sig_wide(item):
+    from mc.props import wide
+    from mc import observe
+    return observe.sig(common.run_spec(wide.to_spec(item)))
+
+
 def project_items(tier):
     from mc.props import c01, c02, c07
 
@@ -49,6 +55,9 @@ def project_items(tier):
     if tier == "thorough":
         h += list(c01.projects("quick"))
     yield "mc.props.c13:sig_c01", "C01 histories", h
+    from mc.props import wide
+    # larger projects: every single toggle of the wide universe (thorough: every pair)
+    yield "mc.props.c13:sig_wide", "wide universe", [it for it in wide.universe("quick") if len(it["t"]) <= (1 if tier == "quick" else 2)]
 
 
 def run(ctx):
